@@ -13,6 +13,7 @@ import (
 	"github.com/zishang520/engine.io/v2/transports"
 	"github.com/zishang520/engine.io/v2/types"
 	"github.com/zishang520/engine.io/v2/utils"
+	"github.com/zishang520/engine.io/v2/vhook"
 )
 
 var (
@@ -325,6 +326,7 @@ func (bs *baseServer) Handshake(transportName string, ctx *types.HttpContext) (*
 	transport.OnRequest(ctx)
 
 	socket := NewSocket(id, bs, transport, ctx, protocol)
+	vhook.Yield("server.Handshake.constructed")
 
 	bs.clients.Store(id, socket)
 	bs.clientsCount.Add(1)
